@@ -266,7 +266,8 @@ def oracle(kind, payload):
             return "the sampler was consulted although the budget is infinite"
         return None
     for k, p in joint.items():
-        if p * Nv >= 1 + tol:
+        # "at least 1/N": the boundary p = 1/N is included (on dyadic inputs the float products are exact, so equality is meaningful)
+        if p * Nv >= (1 if not payload.get("approx") else 1 + tol):
             if k not in res or res[k][1] != "EXACT" or abs(res[k][0] - p * Nv) > tol * max(1, p * Nv):
                 return f"map {k} has probability {float(p)} >= 1/N but got {res.get(k)}"
     for k, (w, ty) in res.items():
